@@ -129,7 +129,7 @@ let handle (line:string) : string =
       | [v; x] -> (int_of_string v, x) | _ -> failwith "bind") bws in
     let rho (v:n) : num option =
       (match List.assoc_opt (int_of_n v) binds with Some "none" -> None | Some x -> Some (num_of_string x) | None -> None) in
-    (match eval rho e with EOk x -> "OK " ^ str_num x | EInexact -> "INEXACT" | EValueError -> "EXC ValueError")
+    (match eval rho e with EOk x -> "OK " ^ str_num x | EInexact -> "INEXACT" | EValueError -> "EXC ValueError" | ENonFinite -> "NONFINITE")
   | "RULE" :: name :: opt :: ws ->
     let e = expr_of ws in
     let r = rule_of name opt in
